@@ -104,18 +104,22 @@ def secClearEventsSaves (cfg : Config) (d : Disk) : List SaveEv :=
 def secRollBackSaves (env : Env) (cfg : Config) (d : Disk) (ns : List Nat) : List SaveEv :=
   loadSaves d cfg.version ++ foldFallBackSaves env cfg.key ns (loadOrNew d cfg.version).pm
 
-def rollBackIfNeededSaves (env : Env) (cfg : Config) (d : Disk) : Option (List Nat) → List SaveEv
-  | some ns => secRollBackSaves env cfg d ns
+/-- A segment: one critical section, starting from the storage directory it finds, with its save
+    events. A call is the list of its sections' segments. -/
+abbrev Segment := Disk × List SaveEv
+
+def rollBackIfNeededSegs (env : Env) (cfg : Config) (d : Disk) : Option (List Nat) → List Segment
+  | some ns => [(d, secRollBackSaves env cfg d ns)]
   | none => []
 
-def shouldInstallSaves (env : Env) (cfg : Config) (d : Disk) (n : Nat) : List SaveEv :=
+def shouldInstallSegs (env : Env) (cfg : Config) (d : Disk) (n : Nat) : List Segment :=
   let r1 := secIsKnownBad cfg d n
-  loadSaves d cfg.version ++ (if r1.2 then [] else secNextBootPatchSaves env cfg r1.1)
+  (d, loadSaves d cfg.version) :: (if r1.2 then [] else [(r1.1, secNextBootPatchSaves env cfg r1.1)])
 
 def secInstallSaves (cfg : Config) (d : Disk) (o : Offer) (out : Bytes) : List SaveEv :=
   loadSaves d cfg.version ++ [.pj ((loadOrNew d cfg.version).pm.addPatch o.number out o.hash o.sig).ps]
 
-def installStageSaves (env : Env) (cfg0 : Config) (base : Option Bytes) (d : Disk) (o : Offer) (dl : Option Bytes) : List SaveEv :=
+def installStageSegs (env : Env) (cfg0 : Config) (base : Option Bytes) (d : Disk) (o : Offer) (dl : Option Bytes) : List Segment :=
   match dl, base with
   | some stream, some base =>
     (match bipatchDecode stream base with
@@ -123,56 +127,58 @@ def installStageSaves (env : Env) (cfg0 : Config) (base : Option Bytes) (d : Dis
      | .ok out =>
        if ¬ checkHash out o.hash then []
        else if ¬ signatureOk env cfg0.key o.sig out then []
-       else secInstallSaves cfg0 d o out)
+       else [(d, secInstallSaves cfg0 d o out)])
   | _, _ => []
 
-def afterCheckSaves (env : Env) (cfg0 : Config) (base : Option Bytes) (d : Disk) (r : CheckResp) (dl : Option Bytes) : List SaveEv :=
+def afterCheckSegs (env : Env) (cfg0 : Config) (base : Option Bytes) (d : Disk) (r : CheckResp) (dl : Option Bytes) : List Segment :=
   let d1 := rollBackIfNeeded env cfg0 d r.rolledBack
-  rollBackIfNeededSaves env cfg0 d r.rolledBack ++
+  rollBackIfNeededSegs env cfg0 d r.rolledBack ++
   (if ¬ r.available then []
    else match r.patch with
     | none => []
     | some o =>
       let s := shouldInstall env cfg0 d1 o.number
-      shouldInstallSaves env cfg0 d1 o.number ++
+      shouldInstallSegs env cfg0 d1 o.number ++
       (match s.2 with
-       | .ok => installStageSaves env cfg0 base s.1 o dl
+       | .ok => installStageSegs env cfg0 base s.1 o dl
        | _ => []))
 
-def updateCoreSaves (env : Env) (cfg0 : Config) (base : Option Bytes) (d : Disk) (sc : UpdateScript) : List SaveEv :=
+def updateCoreSegs (env : Env) (cfg0 : Config) (base : Option Bytes) (d : Disk) (sc : UpdateScript) : List Segment :=
   let r1 := secCopyEvents cfg0 d
   let d2 := secClearEvents cfg0 r1.1
-  loadSaves d cfg0.version ++ secClearEventsSaves cfg0 r1.1 ++
+  (d, loadSaves d cfg0.version) :: (r1.1, secClearEventsSaves cfg0 r1.1) ::
   (match sc.resp with
    | none => []
-   | some r => afterCheckSaves env cfg0 base d2 r sc.dl)
+   | some r => afterCheckSegs env cfg0 base d2 r sc.dl)
 
-def checkCoreSaves (env : Env) (cfg0 : Config) (d : Disk) : Option CheckResp → List SaveEv
+def checkCoreSegs (env : Env) (cfg0 : Config) (d : Disk) : Option CheckResp → List Segment
   | none => []
   | some r =>
-    rollBackIfNeededSaves env cfg0 d r.rolledBack ++
+    rollBackIfNeededSegs env cfg0 d r.rolledBack ++
     (match r.patch with
      | none => []
-     | some o => shouldInstallSaves env cfg0 (rollBackIfNeeded env cfg0 d r.rolledBack) o.number)
+     | some o => shouldInstallSegs env cfg0 (rollBackIfNeeded env cfg0 d r.rolledBack) o.number)
 
-/-- The save events of one exported call. -/
-def opSaves (env : Env) (w : World) : Op → List SaveEv
-  | .init p =>
-    (match w.config, mkConfig p with
-     | none, some cfg => secHandlePriorSaves env cfg w.disk
-     | _, _ => [])
-  | .start => (match w.config with | some cfg => secLaunchStartSaves env cfg w.disk | none => [])
-  | .success => (match w.config with | some cfg => secLaunchSuccessSaves cfg w.disk | none => [])
-  | .failure => (match w.config with | some cfg => secLaunchFailureSaves env cfg w.disk | none => [])
-  | .nextN | .nextP => (match w.config with | some cfg => secNextBootPatchSaves env cfg w.disk | none => [])
-  | .curN => (match w.config with | some cfg => loadSaves w.disk cfg.version | none => [])
-  | .check _ resp => (match w.config with | some cfg => checkCoreSaves env cfg w.disk resp | none => [])
-  | .update _ sc => (match w.config with | some cfg => updateCoreSaves env cfg (w.base cfg) w.disk sc | none => [])
+/-- The sections of one exported call of a configured process, with their save events. -/
+def opSegs (env : Env) (cfg : Config) (w : World) : Op → List Segment
+  | .start => [(w.disk, secLaunchStartSaves env cfg w.disk)]
+  | .success => [(w.disk, secLaunchSuccessSaves cfg w.disk)]
+  | .failure => [(w.disk, secLaunchFailureSaves env cfg w.disk)]
+  | .nextN | .nextP => [(w.disk, secNextBootPatchSaves env cfg w.disk)]
+  | .curN => [(w.disk, loadSaves w.disk cfg.version)]
+  | .check _ resp => checkCoreSegs env cfg w.disk resp
+  | .update _ sc => updateCoreSegs env cfg (w.base cfg) w.disk sc
   | _ => []
 
-/-- Save events of a launch: an initialisation followed by one call. -/
-def launchSaves (env : Env) (w : World) (p : InitParams) (op : Op) : List SaveEv :=
-  opSaves env w (.init p) ++ opSaves env (step env w (.init p)).1 op
+/-- A launch: an effective initialisation (crash detection) followed by one call. -/
+def launchSegs (env : Env) (cfg : Config) (w : World) (p : InitParams) (op : Op) : List Segment :=
+  (w.disk, secHandlePriorSaves env cfg w.disk) :: opSegs env cfg (step env w (.init p)).1 op
+
+def files (d : Disk) : StateFiles := (d.stateJson, d.patchesJson)
+
+/-- Every pair of state files a process dying somewhere in these sections can leave behind. -/
+def segCrashPairs (segs : List Segment) : List StateFiles :=
+  segs.flatMap fun sg => crashPairs (files sg.1) sg.2
 
 /-! ### recovery and what is safe -/
 
@@ -190,7 +196,7 @@ def crashChecks (env : Env) (key : Option String) (pre x : View) (offer : Option
   | some n =>
     [ (recovered.nextNum = some n && (match recovered.ps.next with | some m => recovered.valid env key m | none => false),
         s!"C04: after the process death the next launch selected patch {n}, which is not an intact selected patch"),
-      (!pre.ps.bad.contains n, s!"C04: after the process death the next launch selected patch {n}, which was banned before the interrupted call"),
+      (!settledPre || !pre.ps.bad.contains n, s!"C04: after the process death the next launch selected patch {n}, which was banned before the interrupted call"),
       (x.bootingNum ≠ some n, s!"C04: after the process death the next launch selected patch {n}, whose own launch was in progress when the process died"),
       ((slotNums pre).contains n || offer = some n,
         s!"C04: after the process death the next launch selected patch {n}, which was neither recorded before the interrupted call nor being installed by it"),
